@@ -105,7 +105,7 @@ impl Property for C13 {
 		"C13"
 	}
 	fn rule(&self) -> &'static str {
-		"each case: one effect spec (8 kinds; a delay may nest up to 2 levels of feedback effects) with parameters from the documented ranges and their edges, a sample rate 8k..192k, an internal buffer size, an input signal (impulse/noise/step/DC/sine/full-scale square/sparse/denormal, amplitude up to 4) and two partitions into process() slices. Oracles: dry variant == input exactly; zeros in -> exact zeros out; finite output; superposition+scaling for linear effects (1e-4 of peak); two partitions agree (bit-exact for memoryless effects, 1e-6 for recursive ones). Non-trivial = non-silent input and at least one parameter differs from the builder default; distinct = distinct decoded choices."
+		"each case: one effect spec (8 kinds; a delay may nest up to 2 levels of feedback effects) with parameters from the documented ranges and their edges, a sample rate 8k..192k, an internal buffer size, an input signal (impulse/noise/step/DC/sine/full-scale square/sparse/denormal, amplitude up to 4) and two partitions into process() slices. Oracles: dry variant == input exactly; zeros in -> exact zeros out; finite output; superposition+scaling for linear effects (1e-4 of peak), and scaling by 2^-10..2^-38 with the tolerance relative to the scaled signal; two partitions agree (bit-exact for memoryless effects, 1e-6 for recursive ones). Non-trivial = non-silent input and at least one parameter differs from the builder default; distinct = distinct decoded choices."
 	}
 	fn assumptions(&self) -> Vec<String> {
 		vec![
@@ -200,6 +200,22 @@ impl Property for C13 {
 				let tol = 1e-4 * scale * conditioning(&spec, n, sr);
 				if let Some((i, a, b)) = first_diff(&oc, &want, tol) {
 					return Err(f("linearity", &spec, format!("frame {i}: f(a*x+b*y) = {a:?} but a*f(x)+b*f(y) = {b:?} (a={ka}, b={kb}, tolerance {tol:e}); {spec:?} sr {sr}")));
+				}
+			}
+			// scaling holds at every level: a very quiet signal is treated like a loud one (scaling by
+			// a power of two is exact in binary floating point, so the tolerance can be relative to the
+			// scaled signal itself)
+			let e = [10, 24, 30, 38][(n + sr as usize + ibs) % 4];
+			let k = 2f32.powi(-e);
+			let xs: Vec<Frame> = input.iter().map(|f| *f * k).collect();
+			let os = run_effect(&spec, sr, ibs, &xs, &whole, &info);
+			let want_s: Vec<Frame> = ox.iter().map(|f| *f * k).collect();
+			let pk = peak(&want_s);
+			// (signals that are denormal to begin with, or become so, are outside the exact-scaling argument)
+			if pk > 1e-20 && first_nonfinite(&ox).is_none() {
+				let tol = 1e-4 * pk * conditioning(&spec, n, sr);
+				if let Some((i, a, b)) = first_diff(&os, &want_s, tol) {
+					return Err(f("scaling-at-low-level", &spec, format!("frame {i}: f(2^-{e} x) = {a:?} but 2^-{e} f(x) = {b:?} (tolerance {tol:e}, peak {pk:e}); {spec:?} sr {sr}")));
 				}
 			}
 		}
